@@ -21,6 +21,7 @@ import (
 )
 
 const (
+	kSEQ      = "SEQ" // root only: its children are separate top-level calls on one state object
 	kCALL     = "CALL"
 	kCALLCODE = "CALLCODE"
 	kDELEGATE = "DELEGATECALL"
@@ -42,12 +43,14 @@ type Node struct {
 	Kind  string `json:"kind"`
 	Val   uint64 `json:"val,omitempty"`
 	Items []Item `json:"items,omitempty"`
-	End   string `json:"end"` // stop return selfdestruct | revert invalid oog stack stackover badjump
+	End   string `json:"end"` // stop return selfdestruct | revert invalid oog stack stackover badjump oversize codestore
 	Ben   int    `json:"ben,omitempty"`
+	Gas   uint64 `json:"gas,omitempty"`     // gas requested at the call site (0: the level's default)
+	Pay   bool   `json:"payable,omitempty"` // called with value: accepts it and stops without running the body
 }
 
 type Item struct {
-	Op    string `json:"op"` // sstore log tstore xfer stake unstake tprobe sprobe bprobe cprobe hprobe child
+	Op    string `json:"op"` // sstore log tstore xfer stake unstake unstakeall tprobe sprobe bprobe cprobe hprobe child again(A=node id, B=value)
 	A     uint64 `json:"a,omitempty"`
 	B     uint64 `json:"b,omitempty"`
 	Child *Node  `json:"child,omitempty"`
@@ -56,7 +59,7 @@ type Item struct {
 func isCreateKind(k string) bool { return k == kCREATE || k == kCREATE2 }
 func isFailEnd(e string) bool {
 	switch e {
-	case "revert", "invalid", "oog", "stack", "stackover", "badjump":
+	case "revert", "invalid", "oog", "stack", "stackover", "badjump", "oversize", "codestore":
 		return true
 	}
 	return false
@@ -69,7 +72,16 @@ func modeOfEnd(e string) string {
 }
 
 // isWrite: effects that modify state (refused, per the property, in a static context).
-func isWrite(it Item) bool { return it.Op != "child" }
+func isWrite(it Item) bool { return it.Op != "child" && it.Op != "again" }
+
+// silentEnd: creation failures decided after the init code returned (no failing frame exit at the hook).
+func silentEnd(e string) bool { return e == "oversize" || e == "codestore" }
+
+const (
+	trampolineGas = 40000000 // gas given to the frame that performs a creation meant to fail at code storage
+	codestoreLen  = 7000     // 7000 bytes * 200 * 30 gas > trampolineGas
+	oversizeLen   = 245761   // vm.MaxCodeSize + 1
+)
 
 func (n *Node) clone() *Node {
 	c := *n
@@ -211,6 +223,7 @@ const rootGas = uint64(1) << 62
 type compiled struct {
 	deploy   map[common.Address][]byte // CALL-like nodes (incl. the root when it is a CALL)
 	rootInit []byte                    // root init code when the root is a CREATE
+	inits    map[int][]byte            // SEQ root: init code of top-level creations by node id
 	ctxs     map[common.Address]bool   // statically known context addresses
 	miners   map[common.Address]bool   // contexts that execute STAKE/UNSTAKE
 	auths    []common.Address
@@ -218,8 +231,22 @@ type compiled struct {
 }
 
 func compileTree(root *Node, chainID *big.Int) *compiled {
-	c := &compiled{deploy: map[common.Address][]byte{}, ctxs: map[common.Address]bool{}, miners: map[common.Address]bool{}}
-	if isCreateKind(root.Kind) {
+	c := &compiled{deploy: map[common.Address][]byte{}, ctxs: map[common.Address]bool{}, miners: map[common.Address]bool{}, inits: map[int][]byte{}}
+	if root.Kind == kSEQ {
+		for _, it := range root.Items {
+			ch := it.Child
+			if ch == nil {
+				continue
+			}
+			if isCreateKind(ch.Kind) {
+				c.inits[ch.ID] = c.body(ch, nil, 0, chainID)
+			} else {
+				a := nodeAddr(ch.ID)
+				c.ctxs[a] = true
+				c.deploy[a] = c.body(ch, &a, 0, chainID)
+			}
+		}
+	} else if isCreateKind(root.Kind) {
 		c.rootInit = c.body(root, nil, 0, chainID)
 	} else {
 		a := nodeAddr(root.ID)
@@ -239,6 +266,11 @@ func push0(a *Asm, n int) {
 // frame works on when statically known (nil below a CREATE-like frame).
 func (c *compiled) body(n *Node, ctx *common.Address, level int, chainID *big.Int) []byte {
 	a := &Asm{}
+	if n.Pay { // value sent: accept it, do nothing
+		lRun := a.NewLabel()
+		a.Op(opCALLVALUE, opISZERO).PushLabel(lRun).Op(opJUMPI, opSTOP)
+		a.Mark(lRun)
+	}
 	lEnd := -1
 	if isDead(n) && !c.noGuards { // variant selector: skip the body when bit ID of DIFFICULTY is set
 		lEnd = a.NewLabel()
@@ -276,6 +308,9 @@ func (c *compiled) body(n *Node, ctx *common.Address, level int, chainID *big.In
 			if ctx != nil {
 				c.miners[*ctx] = true
 			}
+		case "again": // call an already defined CALL frame once more (B: value)
+			push0(a, 4)
+			a.Push(it.B).PushBytes(nodeAddr(int(it.A)).Bytes()).Push(levelGas(level+1)).Op(opCALL, opPOP)
 		case "tprobe":
 			a.Push(it.A).Op(opTLOAD).Push(it.B).Op(opSSTORE)
 		case "sprobe":
@@ -317,7 +352,11 @@ func (c *compiled) body(n *Node, ctx *common.Address, level int, chainID *big.In
 				if ch.Kind == kCALL || ch.Kind == kCALLCODE {
 					a.Push(ch.Val)
 				}
-				a.PushBytes(addr.Bytes()).Push(levelGas(level + 1))
+				g := levelGas(level + 1)
+				if ch.Gas != 0 {
+					g = ch.Gas
+				}
+				a.PushBytes(addr.Bytes()).Push(g)
 				switch ch.Kind {
 				case kCALL:
 					a.Op(opCALL)
@@ -411,6 +450,10 @@ func (c *compiled) body(n *Node, ctx *common.Address, level int, chainID *big.In
 		a.Mark(l).Op(opPC).PushLabel(l).Op(opJUMP)
 	case "badjump":
 		a.PushBytes([]byte{0xff, 0xf0}).Op(opJUMP)
+	case "oversize": // creation returns more than MaxCodeSize bytes
+		a.Push(oversizeLen).Op(opPUSH1, 0, opRETURN)
+	case "codestore": // creation returns code whose storage cost exceeds the gas of its (gas-limited) creator
+		a.Push(codestoreLen).Op(opPUSH1, 0, opRETURN)
 	default:
 		panic("unknown end " + n.End)
 	}
@@ -525,6 +568,18 @@ func planTrace(root *Node, authRefused bool) (trace []string, cells []cellHit) {
 			}
 		}
 		for _, it := range n.Items {
+			if it.Op == "again" {
+				tg := root.find(int(it.A))
+				if st && it.B != 0 {
+					fail(depth, "static")
+					hit("static")
+					return false
+				}
+				if tg != nil && !(it.B != 0 && tg.Pay) {
+					rec(tg, depth+1, st, outerID)
+				}
+				continue
+			}
 			if it.Child == nil {
 				if st && isWrite(it) {
 					fail(depth, "static")
@@ -546,7 +601,9 @@ func planTrace(root *Node, authRefused bool) (trace []string, cells []cellHit) {
 			rec(ch, depth+1, st, outerID)
 		}
 		if isFailEnd(n.End) {
-			fail(depth, modeOfEnd(n.End))
+			if !silentEnd(n.End) {
+				fail(depth, modeOfEnd(n.End))
+			}
 			hit(modeOfEnd(n.End))
 			return false
 		}
@@ -556,6 +613,18 @@ func planTrace(root *Node, authRefused bool) (trace []string, cells []cellHit) {
 			return false
 		}
 		return true
+	}
+	if root.Kind == kSEQ {
+		for _, it := range root.Items {
+			if it.Child != nil {
+				rec(it.Child, 1, false, -1)
+			} else if it.Op == "again" {
+				if tg := root.find(int(it.A)); tg != nil && !(it.B != 0 && tg.Pay) {
+					rec(tg, 1, false, -1)
+				}
+			}
+		}
+		return
 	}
 	rec(root, 1, false, -1)
 	return
@@ -577,12 +646,24 @@ func (n *Node) shape(top bool) string {
 			if op == "log" {
 				op = fmt.Sprintf("log%d", it.A)
 			}
+			if op == "again" {
+				op = fmt.Sprintf("again#%d", it.A)
+				if it.B != 0 {
+					op = fmt.Sprintf("fund#%d", it.A)
+				}
+			}
 			parts = append(parts, op)
 		}
 	}
 	s := "[" + strings.Join(parts, ",") + "]"
+	if n.Kind == kSEQ {
+		return "SEQ" + s
+	}
 	if top && n.Kind == kCALL && !isFailEnd(n.End) && n.End != "selfdestruct" {
 		return s
+	}
+	if n.Pay {
+		return fmt.Sprintf("%s#%d/%s%s", n.Kind, n.ID, n.End, s)
 	}
 	return n.Kind + "/" + n.End + s
 }
@@ -592,6 +673,15 @@ func treeJSON(n *Node) []byte { b, _ := json.Marshal(n); return b }
 // leafOps: the effect ops (or, if there are none, the kind/end of leaf frames) of a minimal tree.
 func leafOps(n *Node) []string {
 	set := map[string]bool{}
+	cs := false
+	n.walk(func(x, _ *Node, _ int, _ bool) {
+		if x.End == "codestore" {
+			cs = true
+		}
+	}, nil, 0, false)
+	if cs {
+		return []string{"end:codestore"}
+	}
 	n.walk(func(x, _ *Node, _ int, _ bool) {
 		for _, it := range x.Items {
 			if it.Child == nil {
@@ -621,6 +711,9 @@ func removeLeafOps(n *Node, culprits []string) *Node {
 	for _, s := range culprits {
 		m[s] = true
 	}
+	if m["end:"+c.End] {
+		c.End = "return"
+	}
 	var rec func(x *Node)
 	rec = func(x *Node) {
 		var keep []Item
@@ -630,7 +723,7 @@ func removeLeafOps(n *Node, culprits []string) *Node {
 					continue
 				}
 			} else {
-				if m["frame:"+it.Child.Kind] {
+				if m["frame:"+it.Child.Kind] || m["end:"+it.Child.End] {
 					continue
 				}
 				rec(it.Child)
@@ -647,9 +740,10 @@ func removeLeafOps(n *Node, culprits []string) *Node {
 // generators
 
 type gen struct {
-	rng    *rand.Rand
-	nextID int
-	custom bool // allow STAKE / UNSTAKE / AUTHCALL
+	rng     *rand.Rand
+	nextID  int
+	custom  bool  // allow STAKE / UNSTAKE / AUTHCALL
+	victims []int // leaf CALL frames defined so far (targets of "again")
 }
 
 func (g *gen) id() int { g.nextID++; return g.nextID }
@@ -732,6 +826,26 @@ func (g *gen) node(kind string, level, maxLevel int, ctxKnown, funded bool, ids 
 	cnt := 1 + r.Intn(5)
 	eater := false
 	for i := 0; i < cnt; i++ {
+		if len(g.victims) > 0 && r.Intn(100) < 12 { // operate again on an account that may have self-destructed / been re-funded
+			v := g.victims[r.Intn(len(g.victims))]
+			val := uint64(0)
+			if funded && r.Intn(2) == 0 {
+				val = uint64(1 + r.Intn(9))
+			}
+			n.Items = append(n.Items, Item{Op: "again", A: uint64(v), B: val})
+			continue
+		}
+		if level+1 < maxLevel && r.Intn(100) < 4 { // creation failing at code storage, performed by a gas-limited frame
+			tr := &Node{ID: g.id(), Kind: kCALL, End: "stop", Gas: trampolineGas}
+			*ids = append(*ids, tr.ID)
+			cs := &Node{ID: g.id(), Kind: []string{kCREATE, kCREATE2}[r.Intn(2)], End: "codestore", Val: uint64(r.Intn(3))}
+			for j := 1 + r.Intn(3); j > 0; j-- {
+				cs.Items = append(cs.Items, g.effect(*ids, false))
+			}
+			tr.Items = []Item{{Op: "child", Child: cs}}
+			n.Items = append(n.Items, Item{Op: "child", Child: tr})
+			continue
+		}
 		if level < maxLevel && r.Intn(100) < 38 {
 			k := frameKinds[r.Intn(6)]
 			if g.custom && ctxKnown && r.Intn(6) == 0 {
@@ -745,6 +859,24 @@ func (g *gen) node(kind string, level, maxLevel int, ctxKnown, funded bool, ids 
 			}
 			ch := g.node(k, level+1, maxLevel, known, ctxKnown, ids)
 			ch.End = g.end(k, 50)
+			if isCreateKind(k) && isFailEnd(ch.End) && r.Intn(5) == 0 {
+				ch.End = "oversize"
+			}
+			if k == kCALL && len(ch.Items) > 0 && r.Intn(3) == 0 { // a victim: effects only, often self-destructing
+				leaf := true
+				for _, it := range ch.Items {
+					if it.Op == "child" || it.Op == "again" {
+						leaf = false
+					}
+				}
+				if leaf {
+					ch.Pay = true
+					if r.Intn(3) != 0 {
+						ch.End = "selfdestruct"
+					}
+					g.victims = append(g.victims, ch.ID)
+				}
+			}
 			if isCreateKind(k) && isFailEnd(ch.End) && ch.End != "revert" {
 				if eater { // at most one gas-burning failed creation per frame
 					ch.End = "revert"
@@ -769,13 +901,40 @@ func genRandomTree(rng *rand.Rand, custom bool) *Node {
 		}
 		g.nextID = -1
 		maxLevel := 1 + rng.Intn(4)
-		root := g.node(kind, 0, maxLevel, kind == kCALL, true, &ids)
-		root.End = g.end(kind, 8)
-		if root.End == "selfdestruct" && kind == kCREATE {
-			root.End = "return"
-		}
-		if kind == kCREATE {
-			root.Val = 0
+		var root *Node
+		if rng.Intn(8) == 0 { // several top-level calls on one state object
+			root = &Node{ID: g.id(), Kind: kSEQ, End: "stop"}
+			for j := 2 + rng.Intn(3); j > 0; j-- {
+				if len(g.victims) > 0 && rng.Intn(3) == 0 {
+					root.Items = append(root.Items, Item{Op: "again", A: uint64(g.victims[rng.Intn(len(g.victims))]), B: uint64(rng.Intn(2) * (1 + rng.Intn(9)))})
+					continue
+				}
+				k := kCALL
+				if rng.Intn(6) == 0 {
+					k = kCREATE
+				}
+				ch := g.node(k, 0, maxLevel, k == kCALL, true, &ids)
+				ch.End = g.end(k, 15)
+				if k == kCREATE {
+					ch.Val = 0
+					if ch.End == "selfdestruct" {
+						ch.End = "return"
+					}
+				}
+				root.Items = append(root.Items, Item{Op: "child", Child: ch})
+			}
+		} else {
+			root = g.node(kind, 0, maxLevel, kind == kCALL, true, &ids)
+			root.End = g.end(kind, 8)
+			if root.End == "selfdestruct" && kind == kCREATE {
+				root.End = "return"
+			}
+			if kind == kCREATE {
+				root.Val = 0
+				if isFailEnd(root.End) && rng.Intn(4) == 0 {
+					root.End = "oversize"
+				}
+			}
 		}
 		_, dead := pruneTree(root)
 		if len(dead) > 0 {
@@ -846,7 +1005,7 @@ func genSystematic() []sysCase {
 		return []Item{{Op: "sstore", A: 3, B: 9}, {Op: "tprobe", A: 1, B: 6}, {Op: "sprobe", A: 4, B: 7}, {Op: "log", A: 0, B: 101}}
 	}
 	for _, k := range frameKinds {
-		for _, m := range tableModes {
+		for _, m := range modesOf(k) {
 			for _, act := range actions {
 				for depth := 1; depth <= 2; depth++ {
 					inner := &Node{ID: 10, Kind: k, Items: act.Items(20), Ben: 2}
@@ -868,6 +1027,11 @@ func genSystematic() []sysCase {
 					} else {
 						inner.End = m
 						top = Item{Op: "child", Child: inner}
+						if m == "codestore" { // performed by a gas-limited frame so that storing the code runs out of gas
+							tr := leafChild(kCALL, "stop", 7, 0, top)
+							tr.Child.Gas = trampolineGas
+							top = tr
+						}
 					}
 					if depth == 2 {
 						top = leafChild(kCALL, "stop", 8, 0, Item{Op: "sstore", A: 5, B: 3}, top, Item{Op: "sprobe", A: 4, B: 6})
@@ -881,5 +1045,77 @@ func genSystematic() []sysCase {
 			}
 		}
 	}
+	// top-level creation (evm.Create from the harness) failing in every way, with state-modifying init code
+	for _, m := range []string{"revert", "invalid", "oog", "stack", "badjump", "oversize", "codestore"} {
+		for _, act := range actions {
+			root := &Node{ID: 0, Kind: kCREATE, End: m, Items: act.Items(20)}
+			out = append(out, sysCase{Kind: "TOPCREATE", Mode: m, Action: act.Name, Depth: 0, Tree: root})
+			seq := &Node{ID: 0, Kind: kSEQ, End: "stop", Items: []Item{
+				leafChild(kCALL, "stop", 1, 0, e1...),
+				{Op: "child", Child: &Node{ID: 2, Kind: kCREATE, End: m, Items: act.Items(20)}},
+				leafChild(kCALL, "stop", 3, 0, e2()...),
+			}}
+			out = append(out, sysCase{Kind: "TOPCREATE", Mode: m, Action: act.Name, Depth: 1, Tree: seq})
+		}
+	}
+	// an account that self-destructed earlier and was re-funded is operated on again
+	// (SELFDESTRUCT / SSTORE / value CALL) inside a dead frame — within one transaction and across transactions
+	for _, k := range frameKinds {
+		for _, m := range tableModes {
+			for _, vEnd := range []string{"selfdestruct", "stop"} {
+				for _, multi := range []bool{false, true} {
+					victim := func() Item {
+						v := leafChild(kCALL, vEnd, 30, 0, Item{Op: "sstore", A: 3, B: 4}, Item{Op: "xfer", A: 4, B: 2})
+						v.Child.Pay, v.Child.Ben = true, 1
+						return v
+					}
+					inner := &Node{ID: 10, Kind: k, Ben: 2, Items: []Item{{Op: "again", A: 30}, {Op: "again", A: 30, B: 5}, {Op: "again", A: 30}}}
+					var dead Item
+					if m == "static" {
+						inner.End = "stop"
+						if isCreateKind(k) {
+							inner.End = "return"
+						}
+						if k == kSTATIC {
+							dead = Item{Op: "child", Child: inner}
+						} else {
+							dead = leafChild(kSTATIC, "stop", 9, 0, Item{Op: "child", Child: inner})
+						}
+					} else {
+						inner.End = m
+						dead = Item{Op: "child", Child: inner}
+					}
+					probes := []Item{{Op: "bprobe", A: 130, B: 6}, {Op: "bprobe", A: 1, B: 7}, {Op: "cprobe", A: 130, B: 5}}
+					var root *Node
+					if multi {
+						root = &Node{ID: 0, Kind: kSEQ, End: "stop", Items: []Item{
+							victim(), {Op: "again", A: 30, B: 7},
+							leafChild(kCALL, "stop", 1, 0, dead),
+							leafChild(kCALL, "stop", 2, 0, probes...),
+						}}
+					} else {
+						root = &Node{ID: 0, Kind: kCALL, End: "stop"}
+						root.Items = append(root.Items, victim(), Item{Op: "again", A: 30, B: 7}, dead)
+						root.Items = append(root.Items, probes...)
+					}
+					name := "resuicide"
+					if vEnd == "stop" {
+						name = "revisit"
+					}
+					if multi {
+						name += "-multitx"
+					}
+					out = append(out, sysCase{Kind: k, Mode: m, Action: name, Depth: 1, Tree: root})
+				}
+			}
+		}
+	}
 	return out
+}
+
+func modesOf(k string) []string {
+	if isCreateKind(k) {
+		return append(append([]string{}, tableModes...), "oversize", "codestore")
+	}
+	return tableModes
 }
